@@ -260,6 +260,27 @@ theorem sequenceLock_prev_block_mtp (times : List Int) (seq : Nat) (h : Int) (hh
     congr 1
     omega
 
+/-- `LockTimeToSequence` produces a BIP68 sequence number: type flag set, disable flag clear, and the
+    16-bit field holds the lock in 512-second units (for every lock that fits: < 2^25 seconds), so
+    `calcSequenceLock` decodes it to `⌊t/512⌋·512 − 1` seconds after the previous block's MTP. -/
+theorem lockTimeToSequence_seconds (t : Nat) (ht : t < 2^25) :
+    let s := lockTimeToSequence true t
+    s / SEQ_DISABLE_FLAG % 2 = 0 ∧ s / SEQ_TYPE_FLAG % 2 = 1 ∧ s % (SEQ_MASK + 1) = t / 512 := by
+  have h1 : t % 2^32 = t := Nat.mod_eq_of_lt (by omega)
+  have h2 : t / 2^9 < 2^22 := by omega
+  have h3 := Nat.two_pow_add_eq_or_of_lt h2 1
+  simp only [lockTimeToSequence, Bool.not_true, Bool.false_eq_true, if_false, h1, SEQ_DISABLE_FLAG,
+    SEQ_TYPE_FLAG, SEQ_MASK]
+  rw [Nat.mul_one] at h3
+  rw [← h3]
+  omega
+
+theorem lockTimeToSequence_blocks (n : Nat) (hn : n < 2^16) :
+    let s := lockTimeToSequence false n
+    s / SEQ_DISABLE_FLAG % 2 = 0 ∧ s / SEQ_TYPE_FLAG % 2 = 0 ∧ s % (SEQ_MASK + 1) = n := by
+  simp only [lockTimeToSequence, Bool.not_false, if_true, SEQ_DISABLE_FLAG, SEQ_TYPE_FLAG, SEQ_MASK]
+  omega
+
 /-- version < 2, CSV inactive or a coinbase: no constraint (−1, −1) -/
 theorem sequenceLock_disabled (csvActive : Bool) (version : Nat) (cb : Bool) (nodeHeight : Int)
     (ins : List LockInput) (h : version < 2 ∨ csvActive = false ∨ cb = true) :
@@ -285,6 +306,12 @@ example : Lemmas.LockInputsOk 101 [⟨5, some 100, 1500000000⟩, ⟨1 <<< 22 ||
 /-! ### pinning of regenerated facts (T2) -/
 set_option maxRecDepth 100000 in
 theorem pin_opcodeLengths : Generated.C13.opcodeLengths = (List.range 256).map opLen := by decide
+
+set_option maxRecDepth 100000 in
+/-- the same table read through the protocol's classification of opcodes -/
+theorem pin_opcodeLengths_spec :
+    Generated.C13.opcodeLengths = (List.range 256).map (fun op => match opKind op with
+      | .plain => (1 : Int) | .direct n => (n : Int) + 1 | .pushdata k => -(k : Int)) := by decide
 
 theorem pin_weight_consts :
     Generated.C13.witnessScaleFactor = (WITNESS_SCALE_FACTOR : Int) ∧ Generated.C13.blockHeaderLen = 80 ∧
